@@ -46,7 +46,10 @@ const rule = "case = (engine put in replica mode directly with SetReadOnly(true)
 	"write so that calls start while an apply is in flight); oracle = after every phase the full scan equals the model of the REPLICATED operations only, " +
 	"every apply succeeds, entry points of the mutator table fail with a read-only error, reads return a value the key held during the phase and never " +
 	"client bytes, the engine stays read-only; GetNodeInfo reports role, primary address and read_only as configured for replica, primary and standalone; " +
-	"non-trivial = a mutator-table call started while an apply was in flight; distinct by FNV-64 of the case JSON"
+	"in about half of the phases a client transaction (read-only, or read-write and therefore refused/downgraded; embedded or by service handle) stays open across the phase's " +
+	"replicated operations: every apply, every client call and the read inside the open transaction must return within 5 s (normal: far below a millisecond); in manager " +
+	"cases the mutator table and GetNodeInfo are probed again after Manager.Stop: as long as the node reports role replica every mutation is still refused, and read_only agrees " +
+	"with what mutations experience; non-trivial = a mutator-table call started while an apply was in flight; distinct by FNV-64 of the case JSON"
 
 func TestMain(m *testing.M) {
 	ev.Silence()
@@ -81,8 +84,9 @@ type Call struct {
 
 // Phase is a stretch of concurrent apply + client calls, closed by a barrier.
 type Phase struct {
-	Repl  []ReplOp `json:"replicated"`
-	Calls []Call   `json:"calls"`
+	Repl  []ReplOp  `json:"replicated"`
+	Calls []Call    `json:"calls"`
+	Hold  *HoldSpec `json:"hold,omitempty"` // a client transaction open across this phase's replicated operations
 }
 
 // NodeCase is the node-information sub-check on a separate node.
@@ -101,6 +105,9 @@ type Case struct {
 	Keys        [][]byte  `json:"keys"`
 	Phases      []Phase   `json:"phases"`
 	Node        NodeCase  `json:"node"`
+	// manager mode: mutator-table calls made after Manager.Stop while the
+	// service still answers (the order of cmd/kevo Server.Shutdown)
+	AfterStop []Call `json:"after_stop,omitempty"`
 }
 
 // Doc is the replay document.
@@ -304,9 +311,9 @@ func (s *surface) rpc(name string) (rpcInfo, bool) {
 	return rpcInfo{}, false
 }
 
-func genCall(t *rapid.T, s *surface, keys [][]byte, scratchSrv any) Call {
+func genCall(t *rapid.T, s *surface, keys [][]byte, scratchSrv any, forceMut bool) Call {
 	// mutator-table entry points get half of the draws, the rest of the surface the other half
-	pickMut := rapid.Bool().Draw(t, "mutator")
+	pickMut := forceMut || rapid.Bool().Draw(t, "mutator")
 	c := Call{Sync: rapid.IntRange(0, 3).Draw(t, "sync") != 0}
 	switch rapid.SampledFrom([]string{"engine", "engine", "tx", "svc", "svc"}).Draw(t, "surface") {
 	case "engine":
@@ -463,6 +470,12 @@ type exec struct {
 	mutCalls, mutOverlap, calls, overlap int
 	methodsSeen                          map[string]bool
 	unknownMethods                       int
+	// progress oracle / lifecycle probe (hold_test.go)
+	stuck      bool
+	pending    []chan struct{}
+	probe      *[]probeResult
+	stoppedMgr bool
+	holdKinds  map[string]bool
 }
 
 func (x *exec) fail(kind, ctx, msg string) {
@@ -499,7 +512,7 @@ func newExec(c *Case, s *surface) (*exec, error) {
 	if err != nil {
 		return nil, err
 	}
-	x := &exec{c: c, s: s, dir: dir, model: drive.Model{}, park: &parker{}, methodsSeen: map[string]bool{}}
+	x := &exec{c: c, s: s, dir: dir, model: drive.Model{}, park: &parker{}, methodsSeen: map[string]bool{}, holdKinds: map[string]bool{}}
 	e, err := drive.Open(dir, c.Cfg)
 	if err != nil {
 		x.close()
@@ -543,7 +556,13 @@ func (x *exec) close() {
 		}
 	}
 	if x.eng != nil {
-		_ = x.eng.Close()
+		closed := make(chan struct{})
+		go func() { _ = x.eng.Close(); close(closed) }()
+		select {
+		case <-closed:
+		case <-time.After(15 * time.Second):
+			ev.R().Count("engine_close_hung", 1)
+		}
 	}
 	if x.dir != "" {
 		_ = os.RemoveAll(x.dir)
@@ -778,6 +797,11 @@ func (x *exec) doCall(c *Call) {
 	}
 	if panicV != nil {
 		x.fail("panic", ctx, fmt.Sprintf("%v", panicV))
+		return
+	}
+	if mutator && x.probe != nil {
+		// lifecycle probe: the outcome is judged together with what the node reports
+		*x.probe = append(*x.probe, probeResult{ctx, err})
 		return
 	}
 	if mutator {
@@ -1054,10 +1078,22 @@ func runCase(c *Case, s *surface) (out outcome) {
 		for i := range ph.Repl {
 			x.applyModel(&ph.Repl[i])
 		}
+		var hold *heldTx
+		if ph.Hold != nil {
+			hold = x.beginHold(ph.Hold)
+			if x.failed() {
+				break
+			}
+			if hold.open && len(ph.Repl) > 0 {
+				x.holdKinds[ph.Hold.Kind] = true
+			}
+		}
 		var wg sync.WaitGroup
 		wg.Add(1)
+		applierDone := make(chan struct{})
 		x.park.applierActive.Store(1)
 		go func() {
+			defer close(applierDone)
 			defer wg.Done()
 			defer x.park.applierActive.Store(0)
 			for i := range ph.Repl {
@@ -1071,9 +1107,37 @@ func runCase(c *Case, s *surface) (out outcome) {
 			if x.failed() {
 				break
 			}
-			x.doCall(&ph.Calls[i])
+			call := &ph.Calls[i]
+			if !x.bounded(func() { x.doCall(call) }) {
+				x.blocked("client call "+call.Surface+"."+call.Method, call.Surface+"."+call.Method, hold, applierDone)
+				break
+			}
+		}
+		// every replicated operation returns within the bound
+		select {
+		case <-applierDone:
+		case <-time.After(progressBound()):
+			x.blocked("apply", "no-client-transaction-open", hold, applierDone)
+		}
+		if x.stuck {
+			// give what was released a moment to finish, then give the case up
+			x.finishHold(hold)
+			x.drainPending(5 * time.Second)
+			select {
+			case <-applierDone:
+			case <-time.After(5 * time.Second):
+			}
+			break
 		}
 		wg.Wait()
+		if hold != nil && !x.failed() {
+			// the open transaction still reads, and only replicated values
+			if !x.bounded(func() { x.readInside(hold) }) {
+				x.blocked("read inside the open client transaction", "held-"+ph.Hold.Kind, hold, nil)
+				break
+			}
+		}
+		x.finishHold(hold)
 		if !x.failed() {
 			x.barrier(pi, pi == len(c.Phases)-1)
 		}
@@ -1083,6 +1147,15 @@ func runCase(c *Case, s *surface) (out outcome) {
 	}
 	if !x.failed() {
 		x.nodeCase(&c.Node)
+	}
+	if c.Mode == "manager" && !x.failed() {
+		x.afterStop(c.AfterStop)
+	}
+	if x.stuck && len(x.pending) > 0 {
+		// goroutines of this case are still out: nothing of it may be touched any more
+		out.viol = x.viol
+		out.classes = []string{"mode_" + c.Mode, "gave_up_on_blocked_goroutines"}
+		return
 	}
 	out.viol = x.viol
 	cl := []string{"mode_" + c.Mode, "node_" + c.Node.Mode}
@@ -1094,6 +1167,10 @@ func runCase(c *Case, s *surface) (out outcome) {
 	add(x.mutCalls > 0, "mutator_call")
 	add(x.mutOverlap > 0, "mutator_call_during_apply")
 	add(x.overlap > 0, "any_call_during_apply")
+	add(x.holdKinds["ro"], "apply_while_client_tx_open(ro)")
+	add(x.holdKinds["rw"], "apply_while_client_tx_open(rw-refused)")
+	add(x.holdKinds["svc-ro"] || x.holdKinds["svc-rw"], "apply_while_client_tx_open(svc-handle)")
+	add(x.stoppedMgr, "lifecycle_after_manager_stop")
 	surf := map[string]bool{}
 	for m := range x.methodsSeen {
 		surf[m[:bytes.IndexByte([]byte(m), '.')]] = true
@@ -1149,9 +1226,17 @@ func TestProp(t *testing.T) {
 			}
 			nc := rapid.IntRange(1, 8).Draw(t, "ncalls")
 			for j := 0; j < nc; j++ {
-				ph.Calls = append(ph.Calls, genCall(t, s, c.Keys, scratch))
+				ph.Calls = append(ph.Calls, genCall(t, s, c.Keys, scratch, false))
+			}
+			if hk := rapid.SampledFrom([]string{"", "", "", "ro", "rw", "svc-ro", "svc-rw"}).Draw(t, "hold"); hk != "" {
+				ph.Hold = &HoldSpec{Kind: hk, ReadK: rapid.IntRange(0, len(c.Keys)-1).Draw(t, "holdread"), Commit: rapid.Bool().Draw(t, "holdcommit")}
 			}
 			c.Phases = append(c.Phases, ph)
+		}
+		if c.Mode == "manager" {
+			for j, n := 0, rapid.IntRange(3, 6).Draw(t, "nafterstop"); j < n; j++ {
+				c.AfterStop = append(c.AfterStop, genCall(t, s, c.Keys, scratch, true))
+			}
 		}
 		out := runCase(&c, s)
 		if out.abandoned != "" {
